@@ -335,8 +335,34 @@ Definition evm_bound (name nv : sexp) : sexp :=
   | _, _ => A "undecodable"
   end.
 
+(* (evmcert <hex src> <nvars> <sumA> <sumB> (code <einstr>...)) : the verified certifier applied to the compiled code of ONE
+   generated program (any program the fp stream measures).  certify_sound (EVMProofs.v) quantifies over all code, so a
+   certificate is a proof that this program's footprint (forks + stack.data + scopes.data + values) is bounded by C for every
+   loop count; the implementation's measured peaks of that sum at n and 8n must lie within C.
+   Verdicts: (certified C) | uncertified | (skip unsupported) | (bad exceeds-certified-bound C a b) *)
+Definition has_unsupported (code : list EVM.einstr) : bool :=
+  existsb (fun i => match i with EVM.Eunsupported => true | _ => false end) code.
+
+Definition judge_evmcert (nv sa sb : sexp) (codeS : list sexp) : sexp :=
+  match nv, sa, sb, dec_einstrs codeS with
+  | Atom nva, Atom saa, Atom sba, Some code =>
+      match parse_N nva, parse_Z saa, parse_Z sba with
+      | Some nvars, Some a, Some b =>
+          if has_unsupported code then SList [A "skip"; A "unsupported"]
+          else match EVM.certify code (N.to_nat nvars) (3 * 1000) with
+               | Some C => if (a <=? C) && (b <=? C) then SList [A "certified"; Atom (print_Z C)]
+                           else SList [A "bad"; A "exceeds-certified-bound"; Atom (print_Z C); Atom (print_Z a); Atom (print_Z b)]
+               | None => A "uncertified"
+               end
+      | _, _, _ => A "undecodable"
+      end
+  | _, _, _, _ => A "undecodable"
+  end.
+
 Definition run_sexp (e : sexp) : sexp :=
   match e with
+  | SList [t; _; nv; Atom sa; Atom sb; SList (tc :: codeS)] =>
+      if atom_is "evmcert" t && atom_is "code" tc then judge_evmcert nv (Atom sa) (Atom sb) codeS else A "undecodable"
   | SList [t; name; nv] => if atom_is "evmbound" t then evm_bound name nv else A "undecodable"
   | SList [t; name; nv; SList (tc :: codeS); SList (to :: obs)] =>
       if atom_is "evmtrace" t && atom_is "code" tc && atom_is "obs" to then judge_evmtrace name nv codeS obs
